@@ -123,7 +123,7 @@ pub fn run(ctx: &Ctx, model: &mut Model, rep: &mut Report) {
             rep.sample(hist::to_json(&h));
         }
         // correspondence on arena + keys
-        match hist::model_reply(model, &h) {
+        match hist::model_reply_parts(model, &h, &["arena", "keys"]) {
             None => rep.count("corr_skipped_unmodelled_inline_or_reader_panic"),
             Some(reply) => {
                 let imp = hist::run_impl(&h, |_, _| {});
@@ -137,7 +137,7 @@ pub fn run(ctx: &Ctx, model: &mut Model, rep: &mut Report) {
                         }
                         if let Some(d) = diffs.first() {
                             let small = hist::shrink(&h, |c| {
-                                hist::model_reply(model, c).map(|rp| hist::compare(&rp, &hist::run_impl(c, |_, _| {}), &["arena", "keys"]).map(|d| !d.is_empty()).unwrap_or(false)).unwrap_or(false)
+                                hist::model_reply_parts(model, c, &["arena", "keys"]).map(|rp| hist::compare(&rp, &hist::run_impl(c, |_, _| {}), &["arena", "keys"]).map(|d| !d.is_empty()).unwrap_or(false)).unwrap_or(false)
                             });
                             rep.disagree(json!({"op": format!("graph.history part {} at step {}", d.part, d.step), "model": d.model, "impl": d.imp, "history": hist::to_json(&small)}));
                         }
